@@ -9,7 +9,7 @@ value identities are distinct (`FreshIds`, what the generator guarantees; needed
 twice").  So a `FAIL` of `drv_mon` on an implementation line that the model's own line passes is a difference
 between the implementation and the model, never an artefact of the monitor.
 
-Per check (K1 … K13) there is a separate theorem for every reachable state.
+Per check (K1 … K15) there is a separate theorem for every reachable state.
 -/
 namespace M1
 namespace Mon
@@ -107,7 +107,8 @@ end Mon
 /-- **The monitor never rejects the model**: for every finite history (with distinct value identities), every check
 of the monitor (`checkOp` = K1 count = owners, K2 allocator / destructor event discipline, K3 no leak, K4 gate
 verdicts, K5 stored addresses, K6 union variants, K7 copy-on-write, K8 unwrapping, K9 thin ⇄ fat conversions,
-K10 uninitialised views, K11 constructors, K12 counts read inside callbacks, K13 `with_arc_mut`) passes on the model's own observations. -/
+K10 uninitialised views, K11 constructors, K12 counts read inside callbacks, K13 `with_arc_mut`, K14 destructor at the
+last release, K15 honest iterators) passes on the model's own observations. -/
 theorem monitor_accepts_model (ops : List Op) (h : FreshIds ops) : Mon.checkTrace (Mon.modelTrace ops) = [] :=
   Mon.monitor_accepts_model_aux ops h
 
@@ -179,6 +180,19 @@ on the replacement / on what it received in a swap, also when the script panicke
 theorem K13_sound_run (ops : List Op) (op : Op) :
     checkK13 (observeSlots (run ops)) op (observe (run ops) op) = [] := K13_sound (inv_run ops) op
 
+/-- K14 (C01): an op whose events free a block on which, before the op, only initialised views stood destroys — in that
+same op — every value the views showed (header and elements), unless the op hands the value to the caller
+(`try_unwrap` granted, `into_inner`, `unwrap_or_clone` without `Clone`); for ANY monitor state whose `pre` is the probe
+of the state (the `dropped` set only excuses) -/
+theorem K14_sound_run (ops : List Op) (op : Op) (st : MSt) (hpre : st.pre = observeSlots (run ops)) :
+    checkK14 st op (observe (run ops) op) = [] := K14_sound (inv_run ops) (leninv_run ops) st hpre op
+
+/-- K15 (C06): an iterator-driven constructor fed an honest script (no panic, true `len()`, one true `size_hint()` answer
+— exact, lower < upper or unknown —) into a free slot does not panic, unless the layout computation for the item count
+overflows -/
+theorem K15_sound_run (ops : List Op) (op : Op) :
+    checkK15 (observeSlots (run ops)) op (observe (run ops) op) = [] := K15_sound (run ops) op
+
 /-- K2 + K3 (C01 / C05), with the part of the simulation they need: from a monitor state that describes `run ops`,
 the event fold reports nothing, the leak check reports nothing, and the new monitor state describes the next state -/
 theorem K23_sound (ops : List Op) (op : Op) (hf : FreshIds (ops ++ [op])) (st : MSt) (hr : Rel st (run ops)) :
@@ -188,7 +202,7 @@ theorem K23_sound (ops : List Op) (op : Op) (hf : FreshIds (ops ++ [op])) (st : 
   obtain ⟨h1, h2⟩ := checkOp_sound ops op hf st hr
   have h3 : (checkObsOnly st (observe (run ops) op)).2 = [] := by
     simp only [checkOp, List.append_eq_nil_iff] at h1
-    exact h1.1.1.1.1.1.1.1.1.1
+    exact h1.1.1.1.1.1.1.1.1.1.1.1
   simp only [checkObsOnly, List.append_eq_nil_iff] at h3
   exact ⟨h3.1.1.2, h3.1.2, h2⟩
 
@@ -460,6 +474,57 @@ example : checkTrace (modelTrace (thinPair ++ [.clone 2 0,
       .withCb 0 .thinWithArcMut [.cnt, .cloneTo 1, .cloneTo 3, .getMutWrite 1, .swapWith 1, .getMutWrite 2, .replaceWith 3,
         .getMutWrite 3, .replaceWith 0, .swapWith 7, .read, .panic, .cnt]])) = [] := by decide
 
+
+/-! ### K14 / K15 reject what they are there to reject -/
+
+/-- the observation without its destructor events -/
+def noDrops (o : Obs) : Obs := { o with evs := o.evs.filter fun e => !isDropEv e }
+
+/-- the model: the last `drop` of an `Arc` destroys the value, then frees the block -/
+example : ((modelTrace [.create 0 (.new ⟨1, 7⟩), .clone 1 0, .drop 0, .drop 1]).getLast?.map (·.2.evs)) =
+    some [.drop 1, .dealloc 0 16 8] := by decide
+
+/-- **the last drop of an `Arc` frees the block without running the destructor of its value**: C01 (only K14 sees it) -/
+example : checkTrace (doctorLast noDrops (modelTrace [.create 0 (.new ⟨1, 7⟩), .clone 1 0, .drop 0, .drop 1])) =
+    [Fail.lastNoDrop "C01" 0 1] := by decide
+
+/-- **a refused `into_thin` of the last owner that frees the block but destroys only the header**: C01 for both elements -/
+example : checkTrace (doctorLast (fun o => { o with evs := [.drop 9, .dealloc 0 40 8] }) (modelTrace thinHistory)) =
+    [Fail.lastNoDrop "C01" 0 1, Fail.lastNoDrop "C01" 0 2] := by decide
+
+/-- `dropAll` that frees a shared header + slice without destroying anything; a `replace` inside `with_arc_mut` that frees
+the lender's old allocation without destroying its contents -/
+example : checkTrace (doctorLast noDrops
+      (modelTrace [.create 0 (.hsFromVec ⟨9, 9⟩ [⟨1, 1⟩, ⟨2, 2⟩]), .clone 1 0, .dropAll])) =
+      [Fail.lastNoDrop "C01" 0 9, Fail.lastNoDrop "C01" 0 1, Fail.lastNoDrop "C01" 0 2] ∧
+    checkTrace (doctorLast noDrops (modelTrace replaceHistory)) =
+      [Fail.lastNoDrop "C01" 0 9, Fail.lastNoDrop "C01" 0 1] := by decide
+
+/-- mixed views of one block: the `MaybeUninit` view is released last, the element is (rightly) not destroyed — K14 does
+not apply (not every view was initialised), the trace is accepted -/
+example : checkTrace (modelTrace [.create 0 .newUninit, .writeSlot 0 0 ⟨1, 1⟩, .clone 2 0, .conv 0 .assumeInit, .dropAll]) = [] ∧
+    ((modelTrace [.create 0 .newUninit, .writeSlot 0 0 ⟨1, 1⟩, .clone 2 0, .conv 0 .assumeInit, .dropAll]).getLast?.map
+      (·.2.evs)) = some [.dealloc 0 16 8] := by decide
+
+/-- the value handed to the caller is not destroyed: `try_unwrap`, `into_inner`, `unwrap_or_clone` are accepted -/
+example : checkTrace (modelTrace [.create 0 (.new ⟨1, 7⟩), .tryUnwrap 0, .create 1 (.uniqueNew ⟨2, 7⟩), .intoInner 1,
+      .create 2 (.new ⟨3, 7⟩), .unwrapOrClone 2 false]) = [] := by decide
+
+/-- an honest 2-item script: accepted in all three `size_hint` regimes (exact, lower < upper, unknown upper bound) -/
+example : checkTrace (modelTrace [.iterCtor 0 .fromIter none ⟨[2], [(2, some 2)], [⟨1, 10⟩, ⟨2, 20⟩], none⟩,
+      .iterCtor 1 .fromIter none ⟨[], [(1, some 5), (1, some 5)], [⟨3, 10⟩, ⟨4, 20⟩], none⟩,
+      .iterCtor 2 .uniqueFromIter none ⟨[], [(0, none)], [⟨5, 10⟩, ⟨6, 20⟩], none⟩]) = [] := by decide
+
+/-- **an honest 2-item `from_iter` script answered with `panic:size-hint`** (the items dropped with the iterator): C06 -/
+example : checkTrace (doctorLast (fun o => { o with panicked := true, evs := [.drop 1, .drop 2], slots := [] })
+      (modelTrace [.iterCtor 0 .fromIter none ⟨[], [(2, some 2)], [⟨1, 10⟩, ⟨2, 20⟩], none⟩])) =
+    [Fail.honestPanic "C06" 0] := by decide
+
+/-- a lying script (the `size_hint` answer changes between calls) may panic: not K15's business -/
+example : checkTrace (modelTrace [.iterCtor 0 .fromIter none ⟨[], [(2, some 2), (2, some 3)], [⟨1, 10⟩, ⟨2, 20⟩], none⟩]) = [] ∧
+    ((modelTrace [.iterCtor 0 .fromIter none ⟨[], [(2, some 2), (2, some 3)], [⟨1, 10⟩, ⟨2, 20⟩], none⟩]).getLast?.map
+      (·.2.panicked)) = some true := by decide
+
 #print axioms monitor_accepts_model
 #print axioms monitor_accepts_model_perm
 #print axioms K1_sound
@@ -474,6 +539,9 @@ example : checkTrace (modelTrace (thinPair ++ [.clone 2 0,
 #print axioms K11_sound_run
 #print axioms K12_sound_run
 #print axioms K13_sound_run
+#print axioms K14_sound_run
+#print axioms K15_sound_run
+#print axioms step_free_drops
 #print axioms runCb_out
 #print axioms observe_cbToks_out
 #print axioms initinv_run
